@@ -289,3 +289,58 @@ def whnfS : Nat → Tm → M Tm
         | .ff => whnfS f b
         | _ => pure (.ite c' a b)
     | t => pure t
+
+/-! ## `zonk`: replace every resolved cell by its (shifted) contents — what a reader of the
+elaborated term sees, and what the independent checker is given -/
+
+mutual
+def zonk : Nat → List (Option Tm) → Tm → Option Tm
+  | 0, _, _ => none
+  | f+1, σ, t =>
+    match t with
+    | .hole id s =>
+        match σ[id]? with
+        | some (some sub) =>
+            match zonk f σ sub with
+            | some z => some (ushift 0 s z)
+            | none => none
+        | _ => some t
+    | .lam x im d b =>
+        match zonk f σ d, zonk f σ b with
+        | some d', some b' => some (.lam x im d' b')
+        | _, _ => none
+    | .pi x im d b =>
+        match zonk f σ d, zonk f σ b with
+        | some d', some b' => some (.pi x im d' b')
+        | _, _ => none
+    | .app g a =>
+        match zonk f σ g, zonk f σ a with
+        | some g', some a' => some (.app g' a')
+        | _, _ => none
+    | .letg ds b =>
+        match zonkDefs f σ ds, zonk f σ b with
+        | some ds', some b' => some (.letg ds' b')
+        | _, _ => none
+    | .neg a =>
+        match zonk f σ a with
+        | some a' => some (.neg a')
+        | none => none
+    | .bin op a b =>
+        match zonk f σ a, zonk f σ b with
+        | some a', some b' => some (.bin op a' b')
+        | _, _ => none
+    | .ite c a b =>
+        match zonk f σ c, zonk f σ a, zonk f σ b with
+        | some c', some a', some b' => some (.ite c' a' b')
+        | _, _, _ => none
+    | t => some t
+def zonkDefs : Nat → List (Option Tm) → Defs → Option Defs
+  | 0, _, _ => none
+  | f+1, σ, ds =>
+    match ds with
+    | .nil => some .nil
+    | .cons x a d r =>
+        match zonk f σ a, zonk f σ d, zonkDefs f σ r with
+        | some a', some d', some r' => some (.cons x a' d' r')
+        | _, _, _ => none
+end
